@@ -1109,20 +1109,38 @@ package tree
 
 // TipEdges / tipEdgesRecur (properties C03, C04): only branches whose lower end is a tip are listed, earlier entries are kept
 //@ func (*tree.Tree).tipEdgesRecur
-//@   flag noframe
-//@   requires t != nil && edge != nil && edge.right != nil && edges != nil
+//@   requires t != nil && edge != nil && edge.right != nil && edges != nil && INV12() && LIVEBR() && allocated(edge.right)
+//@   requires [the_list_is_not_a_node_s_own_branch_array] forall n *Node :: {n.br} allocated(n) ==> arr(n.br) != arr(*edges)
+//@   allocates []*Edge
+//@   assigns cell(edges), elems(*edges)
 //@   ensures [the_listed_prefix_is_kept] len(*edges) >= old(len(*edges)) && (forall k int :: {(*edges)[k]} {old((*edges)[k])} 0 <= k && k < old(len(*edges)) ==> (*edges)[k] == old((*edges)[k]))
+//@   ensures [the_list_stays_in_storage_of_its_own] arr(*edges) == old(arr(*edges)) || fresh_arr(*edges)
 //@   ensures [every_appended_branch_ends_at_a_tip] forall k int :: {(*edges)[k]} old(len(*edges)) <= k && k < len(*edges) ==> (*edges)[k] != nil && (*edges)[k].right != nil && len((*edges)[k].right.neigh) == 1
+//@   ensures [every_tip_branch_leaving_an_inner_lower_end_is_listed] len(edge.right.neigh) > 1 ==> (forall i int :: {edge.right.br[i]} 0 <= i && i < len(edge.right.br) && edge.right.br[i].left == edge.right && edge.right.br[i].right != nil && len(edge.right.br[i].right.neigh) == 1 ==> (exists k int :: {(*edges)[k]} old(len(*edges)) <= k && k < len(*edges) && (*edges)[k] == edge.right.br[i]))
+//@   call (*tree.Tree).tipEdgesRecur [descends_through_every_branch_leaving_the_lower_end] a1 == child && child.left == edge.right && a2 == edges
 //@   loop 1
+//@     assigns cell(edges), elems("*Edge")
+//@     invariant [only_the_list_s_own_storage_is_written] oldarrays_same("*Edge", *edges)
+//@     invariant [list_private] (forall n *Node :: {n.br} allocated(n) ==> arr(n.br) != arr(*edges)) && (arr(*edges) == old(arr(*edges)) || fresh_arr(*edges))
 //@     invariant [the_listed_prefix_is_kept] len(*edges) >= old(len(*edges)) && (forall k int :: {(*edges)[k]} 0 <= k && k < old(len(*edges)) ==> (*edges)[k] == old((*edges)[k]))
 //@     invariant [every_appended_branch_ends_at_a_tip] forall k int :: {(*edges)[k]} old(len(*edges)) <= k && k < len(*edges) ==> (*edges)[k] != nil && (*edges)[k].right != nil && len((*edges)[k].right.neigh) == 1
+//@     invariant [tip_branches_met_so_far_are_listed] forall i int :: {edge.right.br[i]} 0 <= i && i <= rangeindex && edge.right.br[i].left == edge.right && edge.right.br[i].right != nil && len(edge.right.br[i].right.neigh) == 1 ==> (exists k int :: {(*edges)[k]} old(len(*edges)) <= k && k < len(*edges) && (*edges)[k] == edge.right.br[i])
+//@     invariant [still_well_formed] INV12() && LIVEBR() && edge != nil && edge.right != nil && edges != nil
 
 //@ func (*tree.Tree).TipEdges
-//@   flag noframe
-//@   requires t != nil
+//@   requires t != nil && t.root != nil && allocated(t.root) && INV12() && LIVEBR()
+//@   allocates []*Edge
+//@   assigns nothing
 //@   ensures [only_tip_branches] forall k int :: {result[k]} 0 <= k && k < len(result) ==> result[k] != nil && result[k].right != nil && len(result[k].right.neigh) == 1
+//@   ensures [every_tip_branch_at_the_root_is_listed] forall i int :: {t.root.br[i]} 0 <= i && i < len(t.root.br) && len(t.root.br[i].right.neigh) == 1 ==> (exists k int :: {result[k]} 0 <= k && k < len(result) && result[k] == t.root.br[i])
+//@   ensures [fresh_storage] arr(result) == 0 || fresh_arr(result)
+//@   call (*tree.Tree).tipEdgesRecur [the_walk_descends_through_every_root_branch] a1 == e
 //@   loop 1
+//@     assigns cell(edges), elems("*Edge")
 //@     invariant [only_tip_branches_so_far] forall k int :: {edges[k]} 0 <= k && k < len(edges) ==> edges[k] != nil && edges[k].right != nil && len(edges[k].right.neigh) == 1
+//@     invariant [root_tip_branches_met_so_far_are_listed] forall i int :: {t.root.br[i]} 0 <= i && i <= rangeindex && len(t.root.br[i].right.neigh) == 1 ==> (exists k int :: {edges[k]} 0 <= k && k < len(edges) && edges[k] == t.root.br[i])
+//@     invariant [list_in_storage_of_its_own] fresh_arr(edges) && oldarrays_same("*Edge") && (forall n *Node :: {n.br} allocated(n) ==> arr(n.br) != arr(edges))
+//@     invariant [still_well_formed] INV12() && LIVEBR() && t != nil && t.root != nil && allocated(t.root)
 
 // StarTree: a central node with nbtips tips on branches of length 1 (thin)
 //@ func tree.StarTree
